@@ -43,8 +43,9 @@ func c15Alphabet(level int) []CIn {
 		}
 		ev = append(ev, CIn{Op: CGet, K: k})
 	}
+	ev = append(ev, CIn{Op: CSetCallback, CB: 2})
 	if level >= 1 {
-		ev = append(ev, CIn{Op: CSetCallback, CB: 2}, CIn{Op: CDelete, K: 0}, CIn{Op: CGetOrSet, K: 1, V: 3, D: 1})
+		ev = append(ev, CIn{Op: CSetCallback, CB: 0}, CIn{Op: CDelete, K: 0}, CIn{Op: CGetOrSet, K: 1, V: 3, D: 1})
 	}
 	return ev
 }
@@ -164,6 +165,45 @@ func c15Lifecycle(level int) ([]Finding, []interface{}) {
 						Replay: map[string]interface{}{"engine": "C15"}})
 				}
 			}
+		}
+	}
+	// the converse: while a cache IS reachable its janitor keeps running, however many GC cycles pass
+	for twin := 0; twin < 2; twin++ {
+		for _, useDefault := range []bool{false, true} {
+			vtime.VEnable(epochNs)
+			vtime.VCaptureTickers(true)
+			cfg := CacheCfg{Twin: twin, HasIvl: true, Ivl: time.Second, UseDefault: useDefault, Def: durNoExp}
+			evicted := 0
+			cfg.Callback = func(k, v int) { evicted++ }
+			c := newCache(cfg)
+			waitJanitorsIdle()
+			tk := vtime.VCaptured()
+			for i := 0; i < 5; i++ {
+				runtime.GC()
+				runtime.Gosched()
+				time.Sleep(time.Millisecond)
+			}
+			problem := ""
+			if len(tk) != 1 {
+				problem = fmt.Sprintf("%d tickers registered", len(tk))
+			} else if tk[0].Stopped() {
+				problem = "the janitor stopped its ticker although the cache is still reachable"
+			} else {
+				c.Set(0, 1, 1)
+				c.SetForever(1, 2)
+				vtime.VAdvance(5)
+				if !tk[0].Fire(20*time.Second) || !waitJanitorsIdle() {
+					problem = "the janitor did not take a tick although the cache is still reachable"
+				} else if c.Count() != 1 || evicted != 1 {
+					problem = fmt.Sprintf("after a tick Count=%d (want 1), callbacks=%d (want 1)", c.Count(), evicted)
+				}
+			}
+			samples = append(samples, map[string]interface{}{"alive_after_gc": cfg.String(), "problem": problem})
+			if problem != "" {
+				fs = append(fs, Finding{Property: "C15", Signature: fmt.Sprintf("life cycle: janitor of a reachable %s dies or stops cleaning after GC", twinNames[twin]),
+					Detail: fmt.Sprintf("%s held across 5 GC cycles: %s", cfg, problem), Replay: map[string]interface{}{"engine": "C15"}})
+			}
+			runtime.KeepAlive(c)
 		}
 	}
 	vtime.VCaptureTickers(false)
